@@ -96,6 +96,39 @@ def check_case(rep, case, wrap=False):
         rep.nontrivial.add(tc.case_id(case))
 
 
+def check_case_log(rep, case):
+    """The same case with an updater that keeps every update it receives and
+    amounts that are mostly falsy (0, False, '', 0.0, [], None): every update of
+    every port variable must arrive at its node, whatever its value."""
+    rep.evaluations += 1
+    b = tc.build(case, wrap='log')
+    sig = {'kind': 'case', 'case': tc.case_id(case), 'form': 'every update kept'}
+    try:
+        eng = tc.make_engine(b)
+        eng.update(1)
+        after = tc.flatten(eng.state.get_value())
+        eng.update(1)
+        after2 = tc.flatten(eng.state.get_value())
+    except Exception as e:
+        rep.violation(sig, 'C06 engine raised %r for case %s (updates kept by the updater)'
+                      % (e, tc.case_id(case)), {'case': case, 'log': True})
+        return
+    exp = {n: [] for n in b.nodes}
+    for x in b.variables:
+        exp[tuple(x['node'])].append(b.amount[(x['port'], tuple(x['v']))])
+    for k, got in enumerate((after, after2)):
+        for n in b.nodes:
+            want = sorted(map(repr, exp[n] * (k + 1)))
+            have = sorted(map(repr, got.get(n, ())))
+            if want != have:
+                rep.violation(dict(sig, what='write', update=k + 1),
+                              'C06 after update %d node %s received the updates %s, the port '
+                              'variables wired to it returned %s; case %s'
+                              % (k + 1, n, have, want, tc.case_id(case)),
+                              {'case': case, 'log': True})
+                return
+
+
 class Holder(tc.Process):
     """declares the variables of the rewire targets"""
     defaults = {'names': ['a']}
@@ -209,6 +242,7 @@ def run(rep, tier, scratch, only=None):
                 check_case(rep, c, wrap=True)
                 if len(set(nodes)) < len(nodes):
                     check_case(rep, c, wrap='mixed0')
+                check_case_log(rep, c)
         rep.traces += len(sel)
         if sel:
             rep.add_sample(sel[len(sel) // 2])
@@ -246,7 +280,8 @@ def check(prop, tier, seed):
                 'non-trivial = colliding variables, ".." segments or dictionary topologies')
     rep.assumptions = ['topologies in which a node would be both a variable and a branch, '
                        'that escape the root or wire into the process node are ill-formed '
-                       'and outside the domain', 'all variables accumulate']
+                       'and outside the domain',
+                       'variables accumulate, or keep every update they receive']
     with tlc.Scratch() as scratch:
         run(rep, tier, scratch)
     return rep.finish()
@@ -257,6 +292,8 @@ def replay(prop, path):
         data = json.load(f)
     rep = Report(prop, 'quick', 0)
     case = data.get('replay', {}).get('case')
-    if case:
+    if case and data.get('replay', {}).get('log'):
+        check_case_log(rep, case)
+    elif case:
         check_case(rep, case)
     return rep.finish(write=False)
